@@ -319,6 +319,10 @@ pub fn build_cond(e: &E, d: Dialect) -> Condition {
             if *negate {
                 c = c.not();
             }
+            // `.not()` toggles: two more calls change nothing
+            if crate::runner::fingerprint(e) % 3 == 0 {
+                c = c.not().not();
+            }
             c
         }
         other => Cond::all().add(other.build(d)),
@@ -679,7 +683,12 @@ pub fn build_select(s: &SelectSpec, d: Dialect) -> SelectStatement {
     if let Some((bern, pct, rep)) = s.sample {
         q.table_sample(if bern { SampleMethod::BERNOULLI } else { SampleMethod::SYSTEM }, pct as f64, rep.map(|r| r as f64));
     }
-    q.to_owned()
+    // the two documented ways of finishing a builder chain
+    if s.api % 5 == 3 {
+        q.take()
+    } else {
+        q.to_owned()
+    }
 }
 
 fn build_returning(r: &Returning, d: Dialect) -> ReturningClause {
